@@ -15,7 +15,7 @@ import (
 // never set are dead.
 
 func init() {
-	registerEngine("E", []string{"E1", "E2"}, runEngineE)
+	registerEngine("E", []string{"E1", "E2", "E3"}, runEngineE)
 }
 
 // customContainers: hand-written linked structures (growth / shrink are methods).
@@ -438,6 +438,55 @@ func runEngineE(p *Prog, o *obls) {
 			w += " (there is no removal anywhere)"
 		}
 		o.bad("E1", fk, pos, w+": memory grows with the number of packets")
+	}
+	// E3: an equality trigger on the length of a growing container must reset it on every path
+	for _, fk := range sortedKeys(cs) {
+		c := cs[fk]
+		for _, g := range c.grow {
+			if g.kind != "append" || !traffic[g.fn] {
+				continue
+			}
+			fn := g.fn
+			for _, b := range fn.Blocks {
+				cond := ifCond(b)
+				bo, ok := cond.(*ssa.BinOp)
+				if !ok || bo.Op != token.EQL {
+					continue
+				}
+				isLenC := func(v ssa.Value) bool {
+					call, ok := p.origin(v).(*ssa.Call)
+					return ok && builtinName(&call.Call) == "len" && loadsField(p, call.Call.Args[0], fk)
+				}
+				if !isLenC(bo.X) && !isLenC(bo.Y) {
+					continue
+				}
+				isShrink := func(in ssa.Instruction) bool {
+					for _, s := range c.shrink {
+						if s.at == in {
+							return true
+						}
+					}
+					return false
+				}
+				before := seededCounts(fn, b.Succs[0], isShrink)
+				var miss []string
+				for _, rb := range fn.Blocks {
+					last := rb.Instrs[len(rb.Instrs)-1]
+					if _, isRet := last.(*ssa.Return); !isRet || rb == fn.Recover {
+						continue
+					}
+					if m := before[last]; m != 0 && m&1 != 0 {
+						miss = append(miss, p.instrPos(last))
+					}
+				}
+				key := fmt.Sprintf("%s@%s", fk, funcKey(fn))
+				if len(miss) > 0 {
+					o.bad("E3", key, p.instrPosV(bo), fmt.Sprintf("the container is processed when its length equals a threshold (%s), but on some path from that branch (to the return at %s) it is not reset: once the length has passed the threshold the equality never holds again and the container grows with every packet", valueString(bo), miss[0]))
+				} else {
+					o.ok("E3", key, p.instrPosV(bo), "every path from the length==threshold branch resets the container")
+				}
+			}
+		}
 	}
 	// goroutine-local / function-local slices that grow in a loop
 	for _, fn := range p.Funcs {
